@@ -140,12 +140,17 @@ Start(t) ==
                     [] op.op \in {"ssend", "fsend"} -> "fs_lock"
                     [] op.op \in {"poll", "frecv", "frecv_all"} -> "r_sig"
                     [] op.op \in {"recv", "brecv"} -> "r_sig"
-                    [] op.op = "view" -> "r_sig"
+                    [] op.op \in {"view", "bview"} -> "r_sig"
+                    [] op.op = "into_single" -> "is_load"
+                    [] op.op = "into_multi" -> "idle"
                     [] op.op = "add_stream" -> "a_gp"
                     [] op.op = "clone" -> IF hnd[op.h].kind = "S" THEN "cs_add" ELSE "cr_add"
                     [] op.op \in {"drop", "unsub"} -> IF hnd[op.h].kind = "S" THEN "ds_sub" ELSE "dr_sub"
      IN /\ thr' = [thr EXCEPT ![t] = [@ EXCEPT !.pc = first, !.prog = Tail(@),
-                                             !.l = [l0 EXCEPT !.block = (op.op = "brecv"),
+                                             !.res = IF op.op = "into_multi"
+                                                     THEN Append(@, [op |-> "into_multi", h |-> op.h, k |-> "Ok", v |-> -1])
+                                                     ELSE @,
+                                             !.l = [l0 EXCEPT !.block = (op.op \in {"brecv", "bview"}),
                                                               !.fut = CASE op.op \in {"ssend", "fsend"} -> "send"
                                                                         [] op.op \in {"poll", "frecv", "frecv_all"} -> "poll"
                                                                         \* FutInnerRecv::try_recv: try_recv, then notify_all
@@ -313,7 +318,9 @@ NUnlock(t) == /\ PC(t) = "n_unlock"
               /\ Ret(t, L(t).s) /\ Ghost(t) /\ UNCHANGED hnd
 
 (* ------------------------------------------------------------------ try_recv / recv / try_recv_view *)
-IsView(t) == L(t).op = "view"
+IsView(t) == L(t).op \in {"view", "bview"}
+\* where recv / recv_view start their next attempt after a wait
+RetryTarget(t) == IF IsView(t) THEN (IF hnd[H(t)].st = "Multi" THEN "r_la" ELSE "r_pos") ELSE "r_single"
 
 RSig(t) == /\ PC(t) = "r_sig"
            /\ Emit(t, "load", "signal", IF mem.noR THEN 2 ELSE 0, TRUE)
@@ -488,10 +495,10 @@ ByYield(t) == /\ PC(t) = "by_yield"
               /\ Emit(t, "yield", "-", "*", TRUE)
               /\ Goto(t, "by_c1") /\ Ghost(t) /\ UNCHANGED <<mem, hnd>>
 ByC1(t) == Chk1(t, "by_c1", "by_c2")
-ByC2(t) == Chk2(t, "by_c2", "r_single", "by_yield")
+ByC2(t) == Chk2(t, "by_c2", RetryTarget(t), "by_yield")
 
 BC1(t) == Chk1(t, "b_c1", "b_c2")
-BC2(t) == Chk2(t, "b_c2", "r_single", "b_c1")
+BC2(t) == Chk2(t, "b_c2", RetryTarget(t), "b_c1")
 
 BwLock(t) == /\ PC(t) = "bw_lock" /\ mem.lock = -1
              /\ Emit(t, "lock", "waitlock", "*", TRUE)
@@ -502,7 +509,7 @@ BwC2(t) == Chk2(t, "bw_c2", "bw_unlock_ret", "bw_wait")
 BwUnlockRet(t) == /\ PC(t) = "bw_unlock_ret"
                   /\ Emit(t, "unlock", "waitlock", "*", TRUE)
                   /\ mem' = [mem EXCEPT !.lock = -1]
-                  /\ Goto(t, "r_single") /\ Ghost(t) /\ UNCHANGED hnd
+                  /\ Goto(t, RetryTarget(t)) /\ Ghost(t) /\ UNCHANGED hnd
 BwWait(t) == /\ PC(t) = "bw_wait"
              /\ Emit(t, "cvwait", "waitcv", "*", TRUE)
              /\ mem' = [mem EXCEPT !.lock = -1, !.cvw = @ \cup {t}]
@@ -516,7 +523,7 @@ BwUnlock(t) == /\ PC(t) = "bw_unlock"
                /\ mem' = [mem EXCEPT !.lock = -1]
                /\ Goto(t, "bw_c3") /\ Ghost(t) /\ UNCHANGED hnd
 BwC3(t) == Chk1(t, "bw_c3", "bw_c4")
-BwC4(t) == Chk2(t, "bw_c4", "r_single", "bw_lock")
+BwC4(t) == Chk2(t, "bw_c4", RetryTarget(t), "bw_lock")
 
 (* ------------------------------------------------------------------ futures layer (WaitKind = "fut") *)
 (* FutWait::notify on the consumer list: lock; take the parked tasks out; unlock; then notify them *)
@@ -643,6 +650,12 @@ AF2(t) == /\ PC(t) = "a_f2" /\ Emit(t, "fence", "-", "*", TRUE)
 AF3(t) == /\ PC(t) = "a_f3" /\ Emit(t, "fence", "-", "*", TRUE)
           /\ Goto(t, "a_raw") /\ Ghost(t) /\ UNCHANGED <<mem, hnd>>
 
+(* ------------------------------------------------------------------ into_single (plain receivers) *)
+IsLoad(t) == /\ PC(t) = "is_load"
+             /\ Emit(t, "load", NcLoc(S(t)), mem.ncons[S(t)], TRUE)
+             /\ Ret(t, IF mem.ncons[S(t)] = 1 THEN "Ok" ELSE "Err")
+             /\ Ghost(t) /\ UNCHANGED <<mem, hnd>>
+
 (* ------------------------------------------------------------------ clone / drop *)
 CsAdd(t) == /\ PC(t) = "cs_add"
             /\ Emit(t, "fadd", "writers", mem.writers, TRUE)
@@ -731,7 +744,7 @@ Step(t) ==
   \/ PkCnt(t) \/ PkLock(t) \/ PkC1(t) \/ PkC2(t) \/ PkUnlockRetry(t) \/ PkUnlockPark(t) \/ PkSleep(t)
   \/ TaskWake(t) \/ Recall(t) \/ PdLock(t) \/ PdUnlock(t)
   \/ AGp(t) \/ ARaw(t) \/ AF1(t) \/ ACas(t) \/ AF2(t) \/ AF3(t)
-  \/ CsAdd(t) \/ CrAdd(t) \/ DsSub(t) \/ DsF(t) \/ DrSub(t) \/ DrGp(t) \/ DrLp(t) \/ DrSet(t) \/ DrCas(t)
+  \/ IsLoad(t) \/ CsAdd(t) \/ CrAdd(t) \/ DsSub(t) \/ DsF(t) \/ DrSub(t) \/ DrGp(t) \/ DrLp(t) \/ DrSet(t) \/ DrCas(t)
   \/ DrF1(t) \/ DrHas(t) \/ DrF(t) \/ DpLock(t) \/ DpUnlock(t)
 
 Next == \E t \in AllT : Step(t)
